@@ -128,6 +128,9 @@ type Run struct {
 	nviol      int
 	resultF    *os.File
 
+	CensusEvery int64 // join / limit scenarios: take the goroutine census in one of N scenarios (C19: every one)
+	censusN     atomic.Int64
+
 	Rule        string
 	Assumptions []string
 	Floor       int // minimum distinct_nontrivial for a "held" verdict
@@ -147,7 +150,7 @@ func newRun(t *testing.T, prop, level string) *Run {
 		Prop: prop, Level: level, Cfg: cfg, start: time.Now(),
 		nontrivial: map[uint64]struct{}{}, counters: map[string]int64{}, maxima: map[string]int64{},
 		minima: map[string]int64{}, sets: map[string]map[string]struct{}{}, foreign: map[string]int64{},
-		Floor: 2, MaxSamples: 4, Extra: map[string]any{},
+		Floor: 2, MaxSamples: 4, Extra: map[string]any{}, CensusEvery: 25,
 	}
 	for _, d := range []string{filepath.Dir(cfg.Evidence), filepath.Dir(cfg.Result), cfg.ReplayDir} {
 		if err := os.MkdirAll(d, 0o755); err != nil {
@@ -167,6 +170,15 @@ func (r *Run) writeResult(v any) {
 	b, _ := json.Marshal(v)
 	r.resultF.Write(append(b, '\n'))
 	r.resultF.Sync()
+}
+
+// wantCensus rations the stop-the-world stack dumps outside the C19 check.
+func (r *Run) wantCensus() bool {
+	n := r.CensusEvery
+	if n <= 1 {
+		return true
+	}
+	return r.censusN.Add(1)%n == 0
 }
 
 // Stopped tells the workers to stop generating cases (too many violations already).
@@ -607,6 +619,52 @@ func censusBubble(id int64) []gInfo {
 		}
 	}
 	return out
+}
+
+// bubbleCensus is called by the stepper inside its bubble after the discipline terminated:
+// everything is allowed to run to a blocked state, a virtual microsecond passes, and then no
+// goroutine started by the library may exist in the bubble (it would be blocked or sleeping
+// forever: a state-based verdict without a deadline). Returns the stacks of leftovers.
+func bubbleCensus(ctl *bubbleCtl) string {
+	synctest.Wait()
+	time.Sleep(time.Microsecond)
+	synctest.Wait()
+	var sb strings.Builder
+	for _, g := range censusBubble(ctl.bubbleID.Load()) {
+		sb.WriteString(g.Text + "\n\n")
+	}
+	return sb.String()
+}
+
+// processCensus is the real-clock counterpart, taken between batches when no scenario is
+// running: goroutines started by the library outside any bubble must be gone; those still
+// there after a grace period, in three consecutive samples, are reported.
+func (r *Run) processCensus(family string) {
+	deadline := time.Now().Add(10 * time.Second)
+	stable := 0
+	var last []gInfo
+	for time.Now().Before(deadline) {
+		last = censusProcess()
+		if len(last) == 0 {
+			r.Count("process_censuses_clean", 1)
+			return
+		}
+		time.Sleep(100 * time.Millisecond)
+	}
+	for i := 0; i < 3; i++ {
+		if len(censusProcess()) > 0 {
+			stable++
+		}
+		time.Sleep(200 * time.Millisecond)
+	}
+	if stable == 3 {
+		var sb strings.Builder
+		for _, g := range last {
+			sb.WriteString(g.Text + "\n\n")
+		}
+		r.Violation("C19", "leak-real:"+family, fmt.Sprintf("%d goroutine(s) started by the library are still alive 10s after every real-clock scenario of family %s had terminated: %s", len(last), family, firstLines(sb.String(), 12)),
+			map[string]any{"family": family, "stacks": sb.String()})
+	}
 }
 
 // censusProcess lists all goroutines of the process started by the library that are not in
